@@ -46,6 +46,9 @@ type CredParams struct {
 	Ops     []CredOp `json:"ops"`
 	Tasks   int      `json:"tasks"`
 	Victim  int      `json:"victim"` // index of the op interrupted at every crash point (-1 = none)
+	// TwoStores: two tasks, each with a store of its own on its own file, both files in one
+	// directory; every store is judged against its own model step by step
+	TwoStores bool `json:"two_stores,omitempty"`
 	OnlyK   int      `json:"only_k,omitempty"`
 }
 
@@ -151,6 +154,9 @@ func (p *credProp) Gen(r *Rand, tier string, idx int) any {
 			op.Task = r.Intn(cp.Tasks)
 		}
 		cp.Ops = append(cp.Ops, op)
+	}
+	if cp.Tasks == 2 && r.Chance(0.5) {
+		cp.TwoStores = true
 	}
 	if cp.Tasks == 1 && r.Chance(0.6) {
 		var cands []int
@@ -429,7 +435,9 @@ func (p *credProp) Run(rc *RunCtx, sc *Scenario) *RunInfo {
 	}
 	var v *Verdict
 	rc.Bubble(func() {
-		if cp.Tasks > 1 {
+		if cp.TwoStores && cp.Tasks == 2 {
+			v = p.twoStores(rc, &cp, info)
+		} else if cp.Tasks > 1 {
 			v = p.concurrent(rc, &cp, info)
 		} else {
 			v = p.sequential(rc, sc, &cp, info)
@@ -591,6 +599,85 @@ func (p *credProp) sequential(rc *RunCtx, sc *Scenario, cp *CredParams, info *Ru
 		}
 	}
 	info.Evals = evals
+	info.CaseHash = simrt.Mix(info.CaseHash, info.StateHash)
+	return nil
+}
+
+// twoStores: two independent stores whose files live in one directory are used at the
+// same time, one task each. Neither may disturb the other: every answer and, after every
+// operation, the store's own file must equal that store's sequential model.
+func (p *credProp) twoStores(rc *RunCtx, cp *CredParams, info *RunInfo) *Verdict {
+	dir := filepath.Join(rc.DiskDir, "two", "cfg")
+	os.MkdirAll(dir, 0o700)
+	paths := []string{filepath.Join(dir, "config.json"), filepath.Join(dir, "other.json")}
+	var stores [2]*credentials.FileStore
+	var models [2]*credModel
+	for i, pth := range paths {
+		if cp.Initial != "" {
+			os.WriteFile(pth, []byte(cp.Initial), 0o600)
+		}
+		fs, err := credentials.NewFileStore(pth)
+		if err != nil {
+			return violation("harness", "", "NewFileStore: %v", err)
+		}
+		stores[i], models[i] = fs, newCredModel(cp.Initial)
+	}
+	var v *Verdict
+	var vmu sync.Mutex
+	simos.Reset(simos.Config{Budget: 100000})
+	defer simos.Disable()
+	res := simrt.Run(rc.NextConfig(), func() {
+		done := make(chan struct{}, 2)
+		for t := 0; t < 2; t++ {
+			t := t
+			simrt.Go(func() {
+				defer func() { done <- struct{}{} }()
+				for i, op := range cp.Ops {
+					if op.Task != t {
+						continue
+					}
+					next := models[t].clone()
+					exp := next.apply(op)
+					got := execCred(stores[t], op)
+					var d string
+					if got == exp {
+						simrt.Observe(func() { d = docMatches(paths[t], next, cp.Initial) })
+					}
+					if got != exp || d != "" {
+						vmu.Lock()
+						if v == nil {
+							if got != exp {
+								v = violation("answer-differs-from-model", "", "store %d (file %s), step %d %s: store answered %+v, model expects %+v - while another store was saving %s in the same directory", t, filepath.Base(paths[t]), i, op, got, exp, filepath.Base(paths[1-t]))
+							} else {
+								v = violation("config-damaged", "", "store %d (file %s) after step %d %s: %s - while another store was saving %s in the same directory", t, filepath.Base(paths[t]), i, op, d, filepath.Base(paths[1-t]))
+							}
+						}
+						vmu.Unlock()
+						return
+					}
+					models[t] = next
+				}
+			})
+		}
+		for t := 0; t < 2; t++ {
+			<-done
+			simrt.Yield("join")
+		}
+	})
+	rc.Done(res)
+	info.absorb(res)
+	info.Outcome = string(res.Outcome)
+	if res.Outcome != simrt.OK {
+		return violation("hang", "", "two-store history did not finish: %s %s %s", res.Outcome, res.Detail, res.PanicValue)
+	}
+	if v != nil {
+		return v
+	}
+	if res.Choices >= 3 {
+		info.Nontrivial = true
+		info.Probes["two_stores_in_one_directory"]++
+	}
+	info.StateHash = strHash(models[0].key() + "|" + models[1].key())
 	info.CaseHash = simrt.Mix(info.CaseHash, info.StateHash)
 	return nil
 }
